@@ -14,6 +14,7 @@ from migen.fhdl.specials import Memory
 
 from litex.gen import LiteXModule
 from litex.build.generic_platform import GenericPlatform
+from litex.soc.integration.soc import SoCError
 from litex.soc.integration.soc_core import SoCCore
 from litex.soc.interconnect import wishbone
 from litex.soc.interconnect.csr import CSR, CSRStorage, CSRStatus, CSRField, CSRConstant
@@ -122,8 +123,22 @@ MENUS = {
                   rams=[("ram2", 0x01000100, 0x100, "rwx"), ("main_ram", 0x40000000, 0x180, "rwx"),
                         ("ram0", "lo", 0x180, "rwx"), ("rama", None, 0x80, "rwx")],
                   roms=[("rom", 0x02000000, 0x40, 17, "little"), ("rom2", 0x02000100, 0x20, 13, "big")]),
+    # boundary of the CSR location range: a bank pinned at the LAST legal location (must answer at its published addresses) ...
+    "toploc": dict(ctrl=True, timer=False, timer_irq=False,
+                   periphs=[("pt", [("st", "r8", 8), ("st", "r33", 33), ("ro", "s16", 16), ("st", "r32", 32)], "top", "add", None)],
+                   rams=[], roms=[]),
+    # ... and one pinned at the first location PAST the range (n_locs): soc.py has to refuse it; if it is built all the same, its
+    # published addresses are checked like any other bank's
+    "overloc": dict(ctrl=True, timer=False, timer_irq=False, expect_reject=True,
+                    periphs=[("pt", [("st", "r8", 8), ("st", "r33", 33), ("ro", "s16", 16), ("st", "r32", 32)], "over", "add", None)],
+                    rams=[], roms=[]),
 }
 MENU_ORDER = ["sizes", "atomic", "memfix", "loc0free", "multi"]
+EDGE_MENUS = ["toploc", "overloc"]
+
+
+class Rejected(Exception):
+    """the SoC refused the configuration (SoCError) - the required outcome for menus with expect_reject"""
 
 
 def rom_image_bytes(n):
@@ -195,6 +210,10 @@ def build(std, bdw, ic, cdw, paging, ordering, aw, base, menu, tmpdir=None):
             soc.add_module(name=name, module=p)
             periphs[name] = p
             if how == "add":
+                if loc == "top":
+                    loc = soc.csr.n_locs - 1
+                elif loc == "over":
+                    loc = soc.csr.n_locs
                 soc.add_csr(name, loc)
             if irq == "auto":
                 soc.irq.add(name, use_loc_if_exists=True)
@@ -203,6 +222,10 @@ def build(std, bdw, ic, cdw, paging, ordering, aw, base, menu, tmpdir=None):
         m = wishbone.Interface(data_width=32, address_width=32, addressing="word")
         soc.bus.add_master("tb", m)
         soc.finalize()
+    except SoCError:
+        if M.get("expect_reject"):
+            raise Rejected()
+        raise
     finally:
         if sys.stderr is None:
             sys.stderr = stderr
